@@ -717,10 +717,8 @@ def block_gauge(ctx, tm, psi):
             try:
                 err = float(np.linalg.norm(dense_state(evolve_n(mp, mpo, T, 1, spec, big)) - ref))
             except AssertionError as e:
-                if g == "mid-centre" and exc_sig(e).endswith("@canonicalise"):
-                    # explicit precondition of canonicalise (C04's subject): loud rejection, not a wrong answer
-                    run.count(f"rejected:{base}:mid-centre:canonicalise-assert")
-                    continue
+                # (a state whose label centre sits in the middle of the chain is one of the property's "any gauge" inputs: a scheme
+                #  that refuses it is reported like any other exception)
                 run.violation(f"{base}:gauge:{g}:exception:{exc_sig(e)}", replay_base(tm, v0, spec, T=T, error=repr(e)))
                 continue
             except Exception as e:
